@@ -418,7 +418,7 @@ func main() {
 		// (validation leaves a certificate cache with its maintenance goroutine behind for every configuration - harmless for
 		// `casket -validate`, which exits, but it adds up here: many short-lived shards keep each worker process small)
 		rep.MaxParallel = 16
-		shards := 64
+		shards := 256
 		if rep.Thorough() {
 			shards = 2048
 		}
@@ -687,16 +687,19 @@ func main() {
 			second = append(second, kw, kw+" a", kw+" /", kw+" \"\"", kw+" 0")
 		}
 		for hi, h := range heads {
-			item++
-			if !rep.Mine(item) {
-				continue
-			}
 			if rep.Expired() {
 				rep.Capped("deadline")
 				break
 			}
 			local := map[string]int64{}
-			for _, l1 := range lines {
+			for li, l1 := range lines {
+				// (one work item per eight first lines of a head: an item is what a shard takes as a whole)
+				if li%8 == 0 {
+					item++
+				}
+				if !rep.Mine(item) {
+					continue
+				}
 				if rep.Expired() {
 					rep.Capped("deadline (inside the blocks of one directive)")
 					break
